@@ -217,10 +217,14 @@ func (x *Exec) modHeapNames(item string, callee *ssa.Function, c *ssa.CallCommon
 }
 
 func (x *Exec) pureSym(key string, fn *ssa.Function, sig *types.Signature) string {
-	sym := q(key + "!")
 	var ps []string
 	for _, t := range paramTypes(sig) {
 		ps = append(ps, x.so.sortOf(t))
+	}
+	sym := q(key + "!")
+	if fn != nil && len(fn.TypeArgs()) > 0 {
+		// one symbol per instantiation of a generic function
+		sym = q(key + "!<" + strings.Join(ps, ",") + ">")
 	}
 	rs := "Int"
 	if sig.Results().Len() == 1 {
